@@ -131,7 +131,7 @@ class WindowFunction(ASTNode):
                f'\n{ind})'
 
     def to_string(self, *args, **kwargs):
-        fnc_str = self.function.get_string()
+        fnc_str = self.function.to_string()
         partition_str = ''
         if self.partition is not None:
             partition_str = 'PARTITION BY ' + ', '.join([arg.to_string() for arg in self.partition])
